@@ -156,6 +156,17 @@ def _driver(rc: RuleCtx):
                           _short(calls[0].guard, 200), str(gate), construct="size gate")
         # M2: under L > 2 and the gate, the call guard == gate and cost comparison
         pts = m.env_pre["points"]
+        if not (isinstance(pts, Vec) and pts.kind == "point"):
+            # the curve is re-bound before the recursion starts: the detectors and the gate no longer see the caller's points
+            a_ = single_atom(pts) if isinstance(pts, Rat) else None
+            lossy = a_ is not None and any(isinstance(x_, str) and "float32" in x_ or "float16" in str(x_) or "int" in str(x_) for x_ in ([a_.extra] if not isinstance(a_.extra, (tuple, list)) else a_.extra)) \
+                or "float32" in str(pts) or "float16" in str(pts)
+            if lossy:
+                res.violation("M2", m.fi.module, m.fi.name, m.fi.node,
+                              "the curve is converted to a narrower dtype before it is split: every detector call and every straightness test sees a rounded copy, not the caller's points",
+                              _short(pts, 120), "the points argument itself", construct="points rebound")
+                continue
+            raise AnalysisError(f"{m.fi.qualname}: `points` is re-bound to {_short(pts, 80)} before the recursion starts - shape not recognised")
         pt = Vec([anf.opaque("slice", c, m.left, m.right, array=True) for c in pts.items], "point")
         coef = anf.opaque("call:linear_fit.linear_fit_points", ev.to_rat(pt), array=True, extra=("points",))
         callee = "linear_fit.linear_r2_points" if mname == "r2" else "linear_fit.smape_points"
